@@ -30,6 +30,8 @@ use crate::sandbox::{Recorder, Sandbox};
 static A: vcore::alloc::Counting = vcore::alloc::Counting;
 
 static THOROUGH: OnceLock<bool> = OnceLock::new();
+/// set for the cases of the 2-deviation class: formats may run a lighter set of repeated leaf calls
+pub static LIGHT: std::sync::atomic::AtomicBool = std::sync::atomic::AtomicBool::new(false);
 pub fn thorough() -> bool {
     *THOROUGH.get().unwrap_or(&false)
 }
@@ -306,6 +308,14 @@ impl SymCache {
 fn in_repo(file: &str) -> bool {
     file.starts_with("file-formats/")
 }
+/// cache key of a panic site: source position inside /repo, else the call chain that reached it
+fn panic_key(file: &str, line: u32, chain: &str) -> (String, u32) {
+    if in_repo(file) {
+        (file.to_string(), line)
+    } else {
+        (format!("pchain:{chain}"), 0)
+    }
+}
 
 // ------------------------------------------------------------------ the space of one format
 
@@ -386,7 +396,7 @@ impl FormatSpace {
                     let (k, d) = self.locate(i);
                     let s = &self.seeds[k];
                     match s.apply(&d) {
-                        Some(input) => sb.run(input.len(), true, skip, false, &|rec: &mut Recorder| self.fmt.run(s, &input, rec, &sc.0)),
+                        Some(input) => sb.run(input.len(), true, skip, false, &|rec: &mut Recorder| case_body(&*self.fmt, s, &input, rec, &sc.0)),
                         None => Default::default(),
                     }
                 })
@@ -407,6 +417,15 @@ impl FormatSpace {
             "cases": self.cum.last().copied().unwrap_or(0),
         })
     }
+}
+
+/// The one function through which both the worker and the symbolizer server enter a case: the
+/// address chains taken inside are cut at this frame, so they agree between the two.
+#[inline(never)]
+fn case_body(fmt: &dyn Format, seed: &Seed, input: &[u8], rec: &mut Recorder, scratch: &std::path::Path) {
+    sandbox::mark_base();
+    fmt.run(seed, input, rec, scratch);
+    std::hint::black_box(());
 }
 
 impl Space for FormatSpace {
@@ -431,7 +450,8 @@ impl Space for FormatSpace {
             return r;
         };
         let (sc, sb, srv) = self.sb();
-        let body = |rec: &mut Recorder| self.fmt.run(s, &input, rec, &sc.0);
+        LIGHT.store(matches!(d, Dev::Field2 { .. }), std::sync::atomic::Ordering::Relaxed);
+        let body = |rec: &mut Recorder| case_body(&*self.fmt, s, &input, rec, &sc.0);
         let name = self.fmt.name();
         let syms = self.syms.get_or_init(SymCache::new);
         // A child that dies (abort, signal, time limit) is re-run without the call that killed it, so
@@ -456,21 +476,31 @@ impl Space for FormatSpace {
             r.count("reruns_after_a_death", 1);
         }
         // name the function of every panic site inside /repo (learnt once per site, then cached)
-        if !sb.nofork && rep.panics.iter().any(|p| in_repo(&p.file) && syms.get(&p.file, p.line).is_none()) {
+        let known = |p: &sandbox::PanicRec| {
+            let k = panic_key(&p.file, p.line, &p.chain);
+            syms.get(&k.0, k.1).is_some()
+        };
+        if !sb.nofork && rep.panics.iter().any(|p| !known(p)) {
+            // the symbolizing child replays every call of the case except those that killed a child
             let got = srv.as_ref().and_then(|x| x.resolve(i, &skip)).map(|x| x.0).unwrap_or_default();
             r.count("symbolizing_reruns", 1);
-            for (file, line, func) in &got {
-                if in_repo(file) && syms.get(file, *line).is_none() {
-                    syms.put(file, *line, func);
+            for (file, line, func, chain) in &got {
+                let k = panic_key(file, *line, chain);
+                if syms.get(&k.0, k.1).is_none() {
+                    syms.put(&k.0, k.1, func);
                 }
             }
             for p in &rep.panics {
-                if in_repo(&p.file) && syms.get(&p.file, p.line).is_none() {
-                    syms.put(&p.file, p.line, "");
+                if !known(p) {
+                    let k = panic_key(&p.file, p.line, &p.chain);
+                    syms.put(&k.0, k.1, "");
                 }
             }
         }
         for (k, d) in deaths.iter().enumerate() {
+            if std::env::var("C05_VERBOSE").is_ok() {
+                eprintln!("   death in call #{} {}: {} chain=[{}]", d.call_no, d.ep, d.class, d.chain);
+            }
             // name the function the process died in: keyed by the return-address chain of the abort
             let key = format!("chain:{}", d.chain);
             let mut func = String::new();
@@ -480,7 +510,9 @@ impl Space for FormatSpace {
                     None => {
                         let got = srv.as_ref().and_then(|x| x.resolve(i, &skip[..k])).and_then(|x| x.1);
                         r.count("symbolizing_reruns", 1);
-                        let f = got.filter(|x| x.0 == d.chain).map(|x| x.1).unwrap_or_default();
+                        // the replay is deterministic: same dying call = same death (the replay's own address
+                        // chain differs in the harness frames, so it is not compared)
+                        let f = got.filter(|x| x.0 == d.call_no).map(|x| x.1).unwrap_or_default();
                         syms.put(&key, 0, &f);
                         f
                     }
@@ -493,7 +525,8 @@ impl Space for FormatSpace {
             }
         }
         for p in &rep.panics {
-            let func = if in_repo(&p.file) { syms.get(&p.file, p.line).unwrap_or_default() } else { String::new() };
+            let k = panic_key(&p.file, p.line, &p.chain);
+            let func = syms.get(&k.0, k.1).unwrap_or_default();
             rep.viols.push((format!("{}: {}", p.ep, sandbox::panic_site(&p.file, &func, &p.msg)), format!("{}:{}: {}", p.file, p.line, p.msg)));
         }
         let mut out = String::new();
@@ -627,6 +660,20 @@ fn main() {
         sandbox::warm_symbolizer();
         println!("warm symbolization: {:?}; {}", t.elapsed(), rss());
         return;
+    }
+    if std::env::args().any(|a| a == "--selftest") {
+        // the seed modules' own checks: every seed is accepted by the parsers of its format and reads back as built
+        let mut bad = false;
+        for (name, r) in [("m2/skin/anim", seeds_m2::selftest()), ("adt", seeds_adt::selftest()), ("wmo", seeds_wmo::selftest())] {
+            match r {
+                Ok(()) => println!("seed selftest {name}: ok"),
+                Err(e) => {
+                    println!("seed selftest {name}: FAILED: {e}");
+                    bad = true;
+                }
+            }
+        }
+        std::process::exit(if bad { 2 } else { 0 });
     }
     if std::env::args().any(|a| a == "--repro") {
         repro();
